@@ -24,7 +24,7 @@ pub fn c11(opts: &Opts, out: &mut Out, ped_labels: &[Vec<u8>]) {
     // the free module --Elligator (dalek)--> the Ristretto accessor's point
     let big = fmrun::params(64, 32, 1);
     let inputs: HashMap<u32, [u8; 64]> = fm::basis_inputs().into_iter().map(|(b, id)| (id, b)).collect();
-    let stride = if opts.thorough { 1 } else { 7 };
+    let stride = if opts.thorough { 1 } else { 3 };
     for (kind, iter) in [("G", big.gi_base_iter().cloned().collect::<Vec<FP>>()), ("H", big.hi_base_iter().cloned().collect::<Vec<FP>>())] {
         for (pos, p) in iter.iter().enumerate().step_by(stride) {
             let (party, idx) = (pos / 64, pos % 64);
@@ -127,7 +127,7 @@ pub fn c11_child(order: &str, ped_labels: &[Vec<u8>]) {
 pub fn c12(opts: &Opts, out: &mut Out) {
     let mut rng = chacha(opts.seed, 12);
     let mut classes = HashSet::new();
-    let bits_list: &[usize] = if opts.thorough { &[1, 2, 4, 8, 16, 64] } else { &[2, 8, 64] };
+    let bits_list: &[usize] = if opts.thorough { &[1, 2, 4, 8, 16, 64] } else { &[1, 2, 4, 8, 64] };
     for &n in bits_list {
         for m in [1usize, 2, 4, 8] {
             if n * m > 128 {
